@@ -114,6 +114,23 @@ func NewGroupCoordinator(store metadata.Store, broker protocol.MetadataBroker, c
 	return c
 }
 
+// sameTopicSet reports whether two subscriptions name the same topics.
+func sameTopicSet(a, b []string) bool {
+	if len(a) != len(b) {
+		return false
+	}
+	seen := make(map[string]struct{}, len(a))
+	for _, t := range a {
+		seen[t] = struct{}{}
+	}
+	for _, t := range b {
+		if _, ok := seen[t]; !ok {
+			return false
+		}
+	}
+	return true
+}
+
 func (c *GroupCoordinator) FindCoordinatorResponse(errorCode int16) *kmsg.FindCoordinatorResponse {
 	resp := kmsg.NewPtrFindCoordinatorResponse()
 	resp.ErrorCode = errorCode
@@ -154,13 +171,18 @@ func (c *GroupCoordinator) JoinGroup(ctx context.Context, req *kmsg.JoinGroupReq
 	} else if member.sessionTimeout == 0 {
 		member.sessionTimeout = defaultSessionTimeout
 	}
-	member.topics = c.parseSubscriptionTopics(req.Protocols)
+	newTopics := c.parseSubscriptionTopics(req.Protocols)
+	// A stable member that rejoins with a different subscription must trigger a
+	// rebalance, or it keeps an assignment for topics it dropped and never gets
+	// partitions of the topics it added.
+	subscriptionChanged := exists && !sameTopicSet(member.topics, newTopics)
+	member.topics = newTopics
 	member.lastHeartbeat = time.Now()
 
 	if len(state.members) == 1 && state.state == groupStateEmpty {
 		state.leaderID = memberID
 		state.startRebalance(timeout)
-	} else if state.state == groupStateStable && !exists {
+	} else if state.state == groupStateStable && (!exists || subscriptionChanged) {
 		state.startRebalance(timeout)
 	} else if state.state == groupStateEmpty {
 		state.startRebalance(timeout)
